@@ -121,10 +121,13 @@ static void case_single(const args_t *a, long c, rng_t *r)
 	if (!ref || N < 8) { inconclusive("reference run produced %zu writes", N); free(ref); free(sizes); model_free(&m); return; }
 	if (want_sample()) sample("single: table of %zu entries (%s): %zu write(2) calls in the reference run; plan = one fault at call i, for every i and every fault kind; e.g. sizes of first calls %zu,%zu,%zu", m.n, wcfg_str(&cfg), N, sizes[0], sizes[1], sizes[2]);
 	for (size_t i = 0; i < N; i++) {
-		for (int kind = 0; kind < 5; kind++) {
+		for (int kind = 0; kind < 7; kind++) {
 			outcome_t o = {O_FULL, 0, 0, 0};
 			const char *kn;
+			if (kind >= 5 && (i % 5) != (size_t)(c % 5)) continue;       /* the long runs at a fifth of the call sites */
 			switch (kind) {
+			case 5: o.kind = O_EINTR; o.k = 500; kn = "EINTRx500"; break;
+			case 6: o.kind = O_EINTR; o.k = 70; kn = "EINTRx70+partial(1)+EINTRx70"; break;
 			case 0: o.kind = O_PARTIAL; o.n = 1; kn = "partial(1)"; break;
 			case 1: o.kind = O_PARTIAL; o.n = sizes[i] - 1; kn = "partial(n-1)"; break;
 			case 2: o.kind = O_PARTIAL; o.n = sizes[i] / 2; kn = "partial(n/2)"; break;
@@ -134,7 +137,12 @@ static void case_single(const args_t *a, long c, rng_t *r)
 			if (o.kind == O_PARTIAL && (sizes[i] < 2 || o.n == 0 || o.n >= sizes[i])) continue;
 			if (kind == 2 && (o.n == 1 || o.n == sizes[i] - 1)) continue;
 			plan_reset();
-			plan = xcalloc(i + 1, sizeof(outcome_t)); plan_len = i + 1; plan[i] = o;
+			if (kind == 6) {
+				/* 70 interruptions, one byte of progress, 70 more interruptions: all while the same buffer is being written */
+				plan = xcalloc(i + 142, sizeof(outcome_t)); plan_len = i + 142;
+				for (int q = 0; q < 70; q++) { plan[i + q].kind = O_EINTR; plan[i + q].k = 1; plan[i + 71 + q].kind = O_EINTR; plan[i + 71 + q].k = 1; }
+				plan[i + 70].kind = O_PARTIAL; plan[i + 70].n = 1;
+			} else { plan = xcalloc(i + 1, sizeof(outcome_t)); plan_len = i + 1; plan[i] = o; }
 			size_t gl; uint8_t *got = run_writer(path, &cfg, &m, &gl);
 			snprintf(what, sizeof what, "%s at write call #%zu (%s, %zu bytes)", kn, i, site_of(i, N, sizes), sizes[i]);
 			compare_with_ref(ref, rl, got, gl, what, &cfg);
